@@ -21,3 +21,4 @@ INVARIANT FirstFitIsLowest
 INVARIANT LastFitIsHighest
 INVARIANT FreeSlotServedWhenFeasible
 INVARIANT SameOnEveryOms
+PROPERTY CoreStep
